@@ -459,6 +459,19 @@ def D6_bond_order_precedence(repo, clause):
                       "built-in guess `%s` is %s" % (ast.unparse(r), "reached only after the user rules have been consulted" if ok else
                                                      "reachable WITHOUT consulting the user bond-order rules: a rule for these atom types is silently ignored"),
                       slot="builtin-after-rules:%s" % ast.unparse(r)[:30], positive=True))
+    # a rule applies exactly when its set of atom types EQUALS the pair's set of atom types
+    from .common import norm_guards
+    inner = [r for r in fn.own_nodes() if isinstance(r, ast.Return) and loop in list(fn.ancestors(r))]
+    for r in inner:
+        gs = [(t, pol) for t, pol, k in norm_guards(fn, r, stop=loop)]
+        eq = [(t, pol) for t, pol in gs if isinstance(t, ast.Compare) and len(t.ops) == 1 and isinstance(t.ops[0], (ast.Eq, ast.NotEq))]
+        ok = len(eq) == 1 and ((isinstance(eq[0][0].ops[0], ast.Eq)) == bool(eq[0][1]))
+        inverted = len(eq) == 1 and not ok
+        obs.append(Ob("D6", clause, fn, r, ok,
+                      "a user rule's bond order is returned %s" % ("when the rule's atom-type set equals the pair's" if ok else (
+                          "when the sets are DIFFERENT (`%s` taken as %s): every rule fires for the wrong pairs and never for its own" % (ast.unparse(eq[0][0]), eq[0][1]) if inverted
+                          else "under a test that is not an equality of the two type sets")),
+                      slot="rule-match", positive=inverted, undecided=not ok and not inverted))
     # every parameter function forwards its rules to the guesser
     n_calls = 0
     for f2 in repo.all_fns():
@@ -471,4 +484,501 @@ def D6_bond_order_precedence(repo, clause):
             obs.append(Ob("D6", clause, f2, c, ok, "%s %s its bond_order_rules to guess_bond_order" % (f2.qualname, "forwards" if ok else "DOES NOT forward"),
                           slot="forwards-rules:%s" % f2.qualname, positive=True))
     floor("D6", "guess_bond_order call sites with rules", n_calls, 2)
+    return obs
+
+
+# ---- hint resolution table of the search ------------------------------------------------------------------------------
+def D7_hint_table(repo, clause):
+    """The three optional hints of find_pattern_in_structure (two axis atoms, one orientation atom) are resolved by a small case
+    analysis on which of them are None.  The values the three variables hold after that analysis are obtained from the partial
+    evaluator (phi terms at the joins) and resolved for every combination of {None, 0, another index} per hint and for both outcomes
+    of the `more than two atoms` test; the documented outcome is: a given hint is used as given (0 is a valid index); with one
+    axis hint the other end is the atom farthest from it; with none, the farthest pair; the orientation atom is computed only when
+    it is not given and the pattern has more than two atoms."""
+    from verif_sa.pe import PE
+    fn = repo.fn("find_pattern_in_structure")
+    H = ("axisp1_idx", "axisp2_idx", "opoint_idx")
+    for h in H:
+        if h not in fn.params:
+            raise AnalysisError("D7: find_pattern_in_structure no longer has the hint parameter %s" % h)
+    pe = PE({p: P(p) for p in fn.params})
+    try:
+        pe.run(fn.node.body, [])
+    except AnalysisError as e:
+        raise AnalysisError("D7: %s" % e)
+    env = pe.env
+
+    def cond(t, A):
+        if not isinstance(t, tuple):
+            raise Unknown(repr(t))
+        op = t[0]
+        if op == "const":
+            return bool(t[1])
+        if op == "not":
+            return not cond(t[1], A)
+        if op == "and":
+            return all(cond(x, A) for x in t[1:])
+        if op == "or":
+            return any(cond(x, A) for x in t[1:])
+        if op in ("is", "isnot", "eq", "ne") and len(t) == 3:
+            a, b = value(t[1], A), value(t[2], A)
+            for x, y in ((a, b), (b, a)):
+                if y == ("const", None):
+                    isnone = x == ("const", None)
+                    if x[0] not in ("const", "hint"):
+                        raise Unknown("None-test of a computed value")
+                    return isnone if op in ("is", "eq") else not isnone
+            raise Unknown(repr(t)[:80])
+        if op == "param" and t[1] in H:
+            v = A[t[1]]
+            return bool(v)           # truth value of the hint: None and 0 are both falsy
+        if op in ("gt", "ge", "lt", "le") and _mentions(t, lambda x: isinstance(x, tuple) and len(x) >= 2 and x[0] == "call" and x[1] == "len"):
+            c = [x for x in (t[1], t[2]) if isinstance(x, tuple) and x[0] == "const"]
+            if len(c) == 1 and c[0][1] == 2 and ((op == "gt" and t[2] == c[0]) or (op == "lt" and t[1] == c[0])):
+                return A["more_than_two"]
+            if len(c) == 1 and c[0][1] == 3 and ((op == "ge" and t[2] == c[0]) or (op == "le" and t[1] == c[0])):
+                return A["more_than_two"]
+            raise Unknown("length test `%s` is not `len > 2`" % _canon(t)[:60])
+        raise Unknown(repr(t)[:80])
+
+    def value(t, A):
+        if not isinstance(t, tuple):
+            return t
+        if t[0] == "param" and t[1] in H:
+            return ("const", None) if A[t[1]] is None else ("hint", t[1])
+        if t[0] in ("phi", "ifexp"):
+            return value(t[2] if cond(t[1], A) else t[3], A)
+        return tuple(value(x, A) for x in t)
+
+    def classify(v):
+        if v == ("const", None):
+            return "None"
+        if v[0] == "hint":
+            return "given:" + v[1]
+        txt = _canon(v)
+        if "unravel_index" in txt and "argmax" in txt and v[0] == "sub[]" and v[2][0] == "const":
+            return "farthest-pair[%d]" % v[2][1]
+        if "argmax" in txt and v[0] == "mcall" and v[2] == "argmax":
+            inner = [x for x in _walk(v) if isinstance(x, tuple) and x and x[0] == "hint"]
+            rows = sorted({x[1] for x in inner})
+            return "farthest-from(%s)" % ",".join(rows)
+        if "position_index_farthest_from_axis" in txt:
+            return "farthest-from-axis"
+        return "other:" + txt[:60]
+
+    def _walk(v):
+        yield v
+        if isinstance(v, tuple):
+            for x in v:
+                if isinstance(x, tuple):
+                    for y in _walk(x):
+                        yield y
+
+    def expected(A):
+        g1, g2, go = A["axisp1_idx"] is not None, A["axisp2_idx"] is not None, A["opoint_idx"] is not None
+        if g1 and g2:
+            e1, e2 = "given:axisp1_idx", "given:axisp2_idx"
+        elif g1:
+            e1, e2 = "given:axisp1_idx", "farthest-from(axisp1_idx)"
+        elif g2:
+            e1, e2 = "given:axisp2_idx", "farthest-from(axisp2_idx)"
+        else:
+            e1, e2 = "farthest-pair[0]", "farthest-pair[1]"
+        eo = "given:opoint_idx" if go else ("farthest-from-axis" if A["more_than_two"] else "None")
+        return e1, e2, eo
+
+    obs = []
+    total = 0
+    bad = []
+    try:
+        for v1, v2, vo, m in itertools.product((None, 0, 5), (None, 0, 5), (None, 0, 5), (True, False)):
+            A = {"axisp1_idx": v1, "axisp2_idx": v2, "opoint_idx": vo, "more_than_two": m}
+            got = tuple(classify(value(env[h], A)) for h in H)
+            want = expected(A)
+            total += 1
+            for h, g, w in zip(H, got, want):
+                if g != w:
+                    bad.append((h, dict(A), w, g))
+    except Unknown as e:
+        raise AnalysisError("D7: hint resolution uses a construct outside the table language: %s" % e)
+    floor("D7", "hint combinations", total, 54)
+    for h in H:
+        b = [x for x in bad if x[0] == h]
+        if not b:
+            d = "%s: all %d combinations of (None / 0 / other index) hints resolve as documented" % (h, total)
+        else:
+            _, A, w, g = b[0]
+            d = "%s resolves WRONGLY in %d of %d hint combinations; e.g. axisp1_idx=%r axisp2_idx=%r opoint_idx=%r, more than two atoms=%s: documented `%s`, code gives `%s`" % (
+                h, len(b), total, A["axisp1_idx"], A["axisp2_idx"], A["opoint_idx"], A["more_than_two"], w, g)
+        obs.append(Ob("D7", clause, fn, fn.node, not b, d, construct="def find_pattern_in_structure hints", slot="hint-table:%s" % h, positive=True))
+    return obs
+
+
+# ---- formula agreement with a reference transcription ---------------------------------------------------------------------
+REFERENCE_SRC = '''
+def pair_coeffs(a1):
+    # Lennard-Jones: UFF tabulates the distance of the minimum x1 and the well depth D1; LAMMPS lj/cut wants sigma = x1 * 2**(-1/6) and epsilon = D1
+    return [UFF4MOF[a1][3], UFF4MOF[a1][2] * 2 ** (-1. / 6.)]
+
+
+def bond_params(a1, a2, bond_order=None, bond_order_rules=None):
+    if bond_order is None:
+        bond_order = guess_bond_order(a1, a2, bond_order_rules)
+    ri, zi, chii = [UFF4MOF[a1][k] for k in (0, 5, 8)]
+    rj, zj, chij = [UFF4MOF[a2][k] for k in (0, 5, 8)]
+    rBO = -0.1332 * (ri + rj) * log(bond_order)
+    rEN = (ri * rj * (chii ** 0.5 - chij ** 0.5) ** 2) / (chii * ri + chij * rj)
+    rij = ri + rj + rBO - rEN
+    kij = 664.12 * zi * zj / (rij ** 3)
+    return (kij / 2, rij)
+
+
+def angle_params(a1, a2, a3, bond_orders=[None, None], bond_order_rules=None):
+    a2_coord_is_4 = (a2[2] == "3") if len(a2) > 2 else False
+    theta0deg = UFF4MOF[a2][1]
+    theta0rad = theta0deg * 2 * pi / 360
+    rij = bond_params(a1, a2, bond_order=bond_orders[0], bond_order_rules=bond_order_rules)[1]
+    rjk = bond_params(a2, a3, bond_order=bond_orders[1], bond_order_rules=bond_order_rules)[1]
+    rik = sqrt(rij ** 2 + rjk ** 2 - 2 * rij * rjk * cos(theta0rad))
+    zi = UFF4MOF[a1][5]
+    zk = UFF4MOF[a3][5]
+    kijk = 664.12 * (zi * zk / rik ** 5) * (3 * rij * rjk * (1 - cos(theta0rad) ** 2) - (rik ** 2 * cos(theta0rad)))
+    if theta0deg in [180., 120., 90.]:
+        if theta0deg == 180.:
+            n = 1
+            b = 1
+        elif theta0deg == 120.:
+            n = 3
+            b = -1
+        elif theta0deg == 90. and a2_coord_is_4:
+            n = 2
+            b = -1
+        elif theta0deg == 90.:
+            n = 4
+            b = 1
+        return ('cosine/periodic', kijk, b, n)
+    else:
+        c2 = 1 / (4 * sin(theta0rad) ** 2)
+        c1 = -4 * c2 * cos(theta0rad)
+        c0 = c2 * (2 * cos(theta0rad) ** 2 + 1)
+        return ('fourier', kijk, c0, c1, c2)
+'''
+
+
+def _fmt(x):
+    return "%.10g" % x
+
+
+def canon_expr(tab, t, env):
+    """Canonical text of an arithmetic term modulo associativity, commutativity, constant folding, a-b = a+(-1)b, x/y = x*y^-1,
+    sqrt(x) = x^0.5.  Sub-terms that are not arithmetic are kept as canonical atoms."""
+    if not isinstance(t, tuple):
+        return repr(t)
+    if t in env:
+        v = env[t]
+        return "const(%r)" % (v,)
+    op = t[0]
+    if op == "const":
+        v = t[1]
+        return _fmt(float(v)) if isinstance(v, (int, float)) and not isinstance(v, bool) else repr(v)
+    if op in ("phi", "ifexp") and not _canon(t).startswith("BO("):
+        return canon_expr(tab, t[2] if tab.ev(t[1], env) else t[3], env)
+    if op in ("add", "sub", "neg", "mul", "div", "pow") or (op == "call" and t[1] == "sqrt"):
+        terms = {}
+
+        def add_terms(x, sign):
+            if isinstance(x, tuple) and x[0] == "add":
+                for y in x[1:]:
+                    add_terms(y, sign)
+            elif isinstance(x, tuple) and x[0] == "sub":
+                add_terms(x[1], sign)
+                add_terms(x[2], -sign)
+            elif isinstance(x, tuple) and x[0] == "neg":
+                add_terms(x[1], -sign)
+            elif isinstance(x, tuple) and x[0] in ("phi", "ifexp") and not _canon(x).startswith("BO("):
+                add_terms(x[2] if tab.ev(x[1], env) else x[3], sign)
+            else:
+                c, atoms = _mono(tab, x, env)
+                key = tuple(sorted((k, round(e, 9)) for k, e in atoms.items()))
+                terms[key] = terms.get(key, 0.0) + sign * c
+        add_terms(t, 1)
+        parts = []
+        for key, c in sorted(terms.items()):
+            if abs(c) < 1e-14:
+                continue
+            parts.append("%s*{%s}" % (_fmt(c), ",".join("%s^%s" % (k, _fmt(e)) for k, e in key)))
+        if len(parts) == 1:
+            return parts[0]
+        return "SUM[" + " + ".join(parts) + "]"
+    if op == "call":
+        return "%s(%s)" % (t[1], ",".join(canon_expr(tab, x, env) for x in t[2][1:]))
+    if op == "mcall":
+        return "%s.%s(%s)" % (canon_expr(tab, t[1], env), t[2], ",".join(canon_expr(tab, x, env) for x in t[3][1:]))
+    if op == "param":
+        return t[1]
+    if op == "free":
+        return t[1]
+    if op == "sub[]":
+        return "%s[%s]" % (canon_expr(tab, t[1], env), canon_expr(tab, t[2], env))
+    if op == "list":
+        return "[" + ",".join(canon_expr(tab, x, env) for x in t[1:]) + "]"
+    return _canon(t)
+
+
+def _mono(tab, t, env):
+    """monomial with canonical atoms (sums inside products become canonical atoms)"""
+    if not isinstance(t, tuple):
+        raise Unknown(repr(t))
+    op = t[0]
+    if t in env and isinstance(env[t], (int, float)) and not isinstance(env[t], bool):
+        return float(env[t]), {}
+    if op == "const" and isinstance(t[1], (int, float)) and not isinstance(t[1], bool):
+        return float(t[1]), {}
+    if op in ("phi", "ifexp") and not _canon(t).startswith("BO("):
+        return _mono(tab, t[2] if tab.ev(t[1], env) else t[3], env)
+    if op == "mul":
+        c, atoms = 1.0, {}
+        for x in t[1:]:
+            c2, a2 = _mono(tab, x, env)
+            c *= c2
+            for k, e in a2.items():
+                atoms[k] = atoms.get(k, 0) + e
+        return c, {k: e for k, e in atoms.items() if abs(e) > 1e-12}
+    if op == "div":
+        c1, a1 = _mono(tab, t[1], env)
+        c2, a2 = _mono(tab, t[2], env)
+        if c2 == 0:
+            raise Unknown("division by the constant 0")
+        atoms = dict(a1)
+        for k, e in a2.items():
+            atoms[k] = atoms.get(k, 0) - e
+        return c1 / c2, {k: e for k, e in atoms.items() if abs(e) > 1e-12}
+    if op == "neg":
+        c, a = _mono(tab, t[1], env)
+        return -c, a
+    if op == "pow":
+        try:
+            ec, ea = _mono(tab, t[2], env)
+        except Unknown:
+            ec, ea = None, {"?": 1}
+        if not ea and ec is not None:
+            c, a = _mono(tab, t[1], env)
+            if not a:
+                try:
+                    return c ** ec, {}
+                except Exception:
+                    raise Unknown("constant power")
+            if c < 0 and ec != int(ec):
+                return 1.0, {canon_expr(tab, t, env): 1}
+            return c ** ec, {k: e * ec for k, e in a.items()}
+        return 1.0, {"pow(%s,%s)" % (canon_expr(tab, t[1], env), canon_expr(tab, t[2], env)): 1}
+    if op == "call" and t[1] == "sqrt" and len(t[2]) == 2:
+        c, a = _mono(tab, t[2][1], env)
+        if c < 0:
+            return 1.0, {canon_expr(tab, t, env): 1}
+        if len(a) == 1 and list(a)[0].startswith("SUM["):
+            return math.sqrt(c), {k: e * 0.5 for k, e in a.items()}
+        return math.sqrt(c), {k: e * 0.5 for k, e in a.items()}
+    if op in ("add", "sub"):
+        return 1.0, {canon_expr(tab, t, env): 1}
+    return 1.0, {canon_expr(tab, t, env): 1}
+
+
+def _numeric_features(tab):
+    """extend the domains: a feature ordered against numeric literals takes values around each literal"""
+    extra = {}
+
+    def scan(t):
+        if not isinstance(t, tuple):
+            return
+        if t and t[0] in ("gt", "ge", "lt", "le") and len(t) == 3:
+            for a, b in ((t[1], t[2]), (t[2], t[1])):
+                if isinstance(b, tuple) and b[0] == "const" and isinstance(b[1], (int, float)) and tab._is_feature(a):
+                    extra.setdefault(a, set()).update({b[1] - 1, b[1], b[1] + 1})
+        for x in t:
+            scan(x)
+    for conds, leaf in tab.dl:
+        for c in conds:
+            scan(c)
+        scan(leaf)
+    return extra
+
+
+def D8_formula_reference(repo, clause, funcs=("pair_coeffs", "bond_params", "angle_params")):
+    obs = []
+    ref_mod = ast.parse(REFERENCE_SRC)
+    refs = {n.name: n for n in ref_mod.body if isinstance(n, ast.FunctionDef)}
+    # bond_params and guess_bond_order are symmetric in their two types (rule D1 proves it on the same tree)
+    nz = Normalizer({"bond_params": [[(0,), (1,)]], "guess_bond_order": [[(0,), (1,)]]})
+    for name in funcs:
+        fn = repo.fn(name, module="mofun.rough_uff")
+        ref = refs[name]
+        want_params = [a.arg for a in ref.args.args]
+        if fn.params != want_params:
+            raise AnalysisError("D8: signature of %s changed (%s)" % (name, fn.params))
+        binding = {p: P(p) for p in fn.params}
+        try:
+            dl_c = decision_list(fn.node, dict(binding), nz)
+            dl_r = decision_list(ref, dict(binding), nz)
+        except AnalysisError as e:
+            raise AnalysisError("D8: %s: %s" % (name, e))
+        tc, tr = Table(repo, dl_c), Table(repo, dl_r)
+        feats = {}
+        for tb in (tc, tr):
+            for f, sets in tb.features.items():
+                feats.setdefault(f, set()).update(sets)
+        numeric = {}
+        for tb in (tc, tr):
+            for f, vals in _numeric_features(tb).items():
+                numeric.setdefault(f, set()).update(vals)
+        doms = {}
+        for f in set(feats) | set(numeric):
+            vals = set()
+            for s_ in feats.get(f, ()):
+                vals |= set(s_)
+            vals |= numeric.get(f, set())
+            vals = sorted(vals, key=repr)
+            if not any(isinstance(v, (int, float)) for v in vals):
+                vals.append("?other?")
+            else:
+                vals.append(12345.678)
+            doms[f] = vals
+        # nested features (a feature that occurs inside another feature's definition) are evaluated, not enumerated
+        order = sorted(doms, key=lambda f: len(repr(f)))
+        total = 0
+        mism = []
+        undecidable = None
+        for combo in itertools.product(*[doms[f] for f in order]) if order else [()]:
+            env = dict(zip(order, combo))
+            total += 1
+            if total > 20000:
+                raise AnalysisError("D8: %s: abstract domain too large" % name)
+            try:
+                ic, lc = tc.decide(env)
+                ir, lr = tr.decide(env)
+            except Unknown as e:
+                undecidable = str(e)
+                break
+            if lr is None:
+                continue            # outside the reference's domain (no path) - not part of the documented behaviour
+            kc = "none" if lc is None else lc[0]
+            if lc is None or lc[0] != lr[0]:
+                mism.append((env, "leaf kind", kc, lr[0], True))
+                continue
+            if lc[0] == "raise":
+                continue
+            vc, vr = lc[1], lr[1]
+            ec = list(vc[1:]) if vc[0] == "list" else [vc]
+            er = list(vr[1:]) if vr[0] == "list" else [vr]
+            if len(ec) != len(er):
+                mism.append((env, "arity", len(ec), len(er), True))
+                continue
+            for j, (x, y) in enumerate(zip(ec, er)):
+                try:
+                    cx, cy = canon_expr(tc, x, env), canon_expr(tr, y, env)
+                except Unknown as e:
+                    undecidable = str(e)
+                    break
+                if cx != cy:
+                    # positive when the two normal forms have the same shape and differ only in numbers (a coefficient, an exponent, a sign,
+                    # a table column, a returned constant): normal forms are constant-folded and like terms are merged, so that is a different function
+                    import re as _re
+                    shape = lambda z: _re.sub(r"-?\d+(\.\d+)?(e-?\d+)?", "#", z)
+                    pos = shape(cx) == shape(cy)
+                    mism.append((env, "element %d" % j, cx, cy, pos))
+            if undecidable:
+                break
+        if undecidable:
+            raise AnalysisError("D8: %s uses a construct outside the table language: %s" % (name, undecidable))
+        floor("D8", "abstract inputs of %s" % name, total, 1)
+        if not mism:
+            obs.append(Ob("D8", clause, fn, fn.node, True,
+                          "%s: on all %d abstract inputs the returned terms equal the documented formulas (normal form modulo associativity, commutativity, constant folding)" % (name, total),
+                          construct="def %s" % name, slot="formula:%s" % name, positive=False))
+        else:
+            env, what, got, want, pos = mism[0]
+            anypos = any(m[4] for m in mism)
+            envtxt = ", ".join("%s=%r" % (_canon(k)[:30], v) for k, v in env.items()) or "(no case analysis)"
+            obs.append(Ob("D8", clause, fn, fn.node, False,
+                          "%s DEVIATES from the documented formula on %d of %d abstract inputs; e.g. %s: %s is `%s`, documented `%s`" % (
+                              name, len({repr(m[0]) for m in mism}), total, envtxt, what, str(got)[:160], str(want)[:160]),
+                          construct="def %s" % name, slot="formula:%s" % name, positive=anypos, undecided=not anypos))
+    return obs
+
+
+def D9_type_string_parsing(repo, clause):
+    """UFF type labels are five-character mnemonics: characters 0-1 are the element (padded with '_'), character 2 the
+    hybridisation / geometry.  dihedral_params derives both with string operations; constant-folding those operations over every
+    key of the UFF4MOF table must give the element and the hybridisation character of that key."""
+    fn = repo.fn("dihedral_params")
+    nz = Normalizer({})
+    dl = decision_list(fn.node, {p: P(p) for p in fn.params}, nz)
+    tab = Table(repo, dl)
+    try:
+        m, v = repo.table("UFF4MOF")
+        keys = [k.value for k in v.keys if isinstance(k, ast.Constant) and isinstance(k.value, str)]
+    except Exception as e:
+        raise AnalysisError("D9: UFF4MOF table not readable: %s" % e)
+    floor("D9", "UFF4MOF keys", len(keys), 200)
+
+    def fold(t, s):
+        """constant-fold a feature term with its type parameter bound to the string s"""
+        if not isinstance(t, tuple):
+            raise Unknown(repr(t))
+        op = t[0]
+        if op == "param":
+            return s
+        if op == "const":
+            return t[1]
+        if op == "sub[]":
+            base = fold(t[1], s)
+            i = t[2]
+            if isinstance(i, tuple) and i[0] == "slice":
+                lo = fold(i[1], s) if i[1] is not None else None
+                hi = fold(i[2], s) if i[2] is not None else None
+                st = fold(i[3], s) if i[3] is not None else None
+                return base[lo:hi:st]
+            return base[fold(i, s)]
+        if op == "mcall" and t[2] in ("strip", "rstrip", "lstrip", "lower", "upper", "title") and isinstance(fold(t[1], s), str):
+            return getattr(fold(t[1], s), t[2])(*[fold(a, s) for a in t[3][1:]])
+        if op == "call" and t[1] == "len":
+            return len(fold(t[2][1], s))
+        if op in ("ifexp",):
+            return fold(t[2], s) if fold(t[1], s) else fold(t[3], s)
+        if op in ("gt", "ge", "lt", "le", "eq", "ne"):
+            a, b = fold(t[1], s), fold(t[2], s)
+            return {"gt": a > b, "ge": a >= b, "lt": a < b, "le": a <= b, "eq": a == b, "ne": a != b}[op]
+        raise Unknown(repr(t)[:60])
+    obs = []
+    kinds = {}
+    for f in tab.features:
+        lits = set().union(*tab.features[f]) if tab.features[f] else set()
+        kind = "el" if lits & CHALCOGENS else ("h" if lits & {"1", "2", "3", "R"} else None)
+        if kind:
+            kinds.setdefault(kind, []).append(f)
+    for kind, want in (("el", lambda k: k[0:2].strip("_")), ("h", lambda k: k[2] if len(k) > 2 else None)):
+        fs = kinds.get(kind, [])
+        if not fs:
+            raise AnalysisError("D9: no %s feature found in dihedral_params" % kind)
+        bad = []
+        try:
+            for f in fs:
+                for k in keys:
+                    got = fold(f, k)
+                    w = want(k)
+                    if kind == "h":
+                        same = (got == w) or (w is None and got not in ("1", "2", "3", "R"))
+                    else:
+                        same = got == w
+                    if not same:
+                        bad.append((k, got, w))
+        except Unknown as e:
+            raise AnalysisError("D9: %s of a type label is derived by a construct outside the folding language: %s" % (kind, e))
+        except Exception as e:
+            raise AnalysisError("D9: folding failed: %s" % e)
+        obs.append(Ob("D9", clause, fn, fn.node, not bad,
+                      "%s of every UFF4MOF key (%d keys x %d uses): %s" % ("element" if kind == "el" else "hybridisation character", len(keys), len(fs),
+                                                                         "derived correctly from the label" if not bad else
+                                                                         "WRONG for %d key uses, e.g. %r gives %r instead of %r" % (len(bad), bad[0][0], bad[0][1], bad[0][2])),
+                      construct="def dihedral_params type labels", slot="type-label:%s" % kind, positive=True))
     return obs
